@@ -673,6 +673,41 @@ func RunC18(cfg Config) (*ShardResult, error) {
 			}
 		}
 	}
+	// ---------- A2. a document of 17 MiB (beyond any "reasonable" cap a reader might put on its input): faults far into it
+	{
+		var d corpus.Doc
+		for fi, k := range []int{16<<20 + 1, 17<<20 - 1, 8 << 20} {
+			for _, reader := range []string{"srt"} {
+				p := simio.ReadPlan{Name: "huge", Rest: 1 << 16, Fault: &simio.Fault{Offset: k, Kind: []string{"sim", "unexpectedeof", "connreset"}[fi], Sticky: true}}
+				if !cfg.Mine(Key64("huge", reader, fmt.Sprint(k))) {
+					continue
+				}
+				if d.Data == nil { // generated only by the workers that own one of these cases (same bytes for every seed)
+					d = corpus.Large("srt", prng.New(1).Derive("huge", 0), 17<<20)
+				}
+				sc := ReadScenario{Doc: d.Name, Reader: reader, Data: d.Data, Plan: p}
+				o, sr := EvalRead(reader, d.Data, p)
+				res.Evaluations++
+				res.Probes["fault_beyond_16MiB"]++
+				if sr.FaultFired() && seen.add(Key64("huge", reader, fmt.Sprint(k))) {
+					res.Distinct++
+				}
+				if o.Class == "ok" || o.Class == "panic" || o.Class == "overrun" {
+					// the reference (fault-free parse of 17 MiB) is only computed when needed
+					ref, _ := EvalRead(reader, d.Data, simio.ReadPlan{Rest: 1 << 16})
+					if v := c18ReadViolation(sc, ref, o, sr.FaultFired(), -1); v != nil {
+						// keep the replay file small: the document is regenerated from its name on replay
+						sc.Data = nil
+						b, _ := json.Marshal(C18Scenario{Kind: "huge", Read: &sc})
+						v.Scenario = b
+						if addV(v) {
+							return res, nil
+						}
+					}
+				}
+			}
+		}
+	}
 	// ---------- B. over-long lines
 	for _, f := range []string{"srt", "vtt", "ssa"} {
 		for _, L := range lim.longLens {
@@ -959,6 +994,11 @@ func CheckC18Scenario(sc C18Scenario, scratch string) *Violation {
 		return v
 	case "longline":
 		v, _ := checkC18Read(*sc.Read, sc.Cues)
+		return v
+	case "huge":
+		r := *sc.Read
+		r.Data = corpus.Large("srt", prng.New(1).Derive("huge", 0), 17<<20).Data
+		v, _ := checkC18Read(r, -1)
 		return v
 	case "write", "complete":
 		return checkC18Write(sc)
